@@ -1,6 +1,7 @@
 from dataclasses import dataclass, field
 import pandas as pd
 from typing import Union
+import numbers
 
 class ParameterSettings:
     """ ParameterSettings class contain all settings of a parameter
@@ -76,7 +77,7 @@ class ParameterTable:
         if self._keys is None:
             return self._data[key]
         else:
-            if isinstance(key,int):
+            if isinstance(key,numbers.Integral):   # also a position computed with numpy
                 return self._data[self._keys[key]]
             else:
                 return self._data[key]
